@@ -161,7 +161,8 @@ Proof.
   rewrite (sum_pending c pend nbs Hg), N.eqb_refl. cbn [andb].
   rewrite firstn_map, (unframe_all_frames c) by (auto; rewrite Forall_forall in *; intros x Hx; rewrite <- M; apply Hall; apply In_firstn_In in Hx; exact Hx).
   rewrite (distribute_good c pend nbs _ Hg).
-  rewrite (IH w' [] [] []); auto; [|constructor].
+  assert (IHd : check c r (run (c_env c) w' r) [] = true) by (apply (IH w' [] [] []); auto; constructor).
+  rewrite IHd.
   rewrite !andb_true_r. apply N.eqb_eq. unfold len. rewrite map_length, firstn_length.
   unfold drain_count. destruct k as [k|]; lia.
 Qed.
@@ -174,7 +175,7 @@ Proof.
   - apply N.leb_gt in E. destruct (forallb values_nonempty (k_ops c)) eqn:Hne; [|reflexivity].
     destruct (new_ok (k_max c) (k_lp c) E) as (w & Hn & R & M & L).
     unfold run_case, run_cfg. cbn [cfg_of c_max c_lp c_env]. rewrite Hn.
-    apply (check_run (cfg_of impl_fixes c) eq_refl E (k_ops c) w [] [] []); auto. constructor.
+    apply (check_run (cfg_of impl_fixes c) eq_refl E (k_ops c) w [] [] []); auto.
 Qed.
 
 (* ------------------------------------------------------------------ what acceptance means *)
@@ -222,7 +223,7 @@ Proof.
   - destruct (fits _ _ v); intros E; apply andb_true_iff in E as [E1 E2]; apply N.eqb_eq in E1, E2; auto.
   - intros E. apply andb_true_iff in E as [E1 E2]. apply N.eqb_eq in E1. split; auto.
     apply eqb_prop in E2. split.
-    + intros ->. cbn in E2. destruct (kept _ _); [reflexivity|discriminate].
+    + intros ->. revert E2. destruct (kept _ _); cbn; intros E2; [reflexivity|discriminate].
     + intros Hk. rewrite Hk in E2. cbn [is_empty] in E2. apply N.eqb_eq. exact E2.
 Qed.
 
